@@ -69,7 +69,7 @@ theorem fireOne_mall (now id : Nat) (τ : Timer) (T : Target) :
 /-! ### the target's task -/
 
 theorem run_cases2 (T : Target) (now : Nat) :
-    (T.run now = T ∧ (T.exit ≠ none ∨ T.stopping ≠ none)) ∨
+    (T.run now = T ∧ (T.exit ≠ none ∨ T.stopping ≠ none ∨ T.starting = true)) ∨
     ((T.run now).closedAt = some (T.closedAt.getD now) ∧ (T.run now).mbox = [] ∧
       ∃ l : List (Nat × Nat), l.Sublist T.mbox ∧ (T.run now).handled = T.handled ++ l.map (fun m => (m.1, m.2, now))) ∨
     ((T.run now).closedAt = T.closedAt ∧ (T.run now).mbox = [] ∧
@@ -80,7 +80,9 @@ theorem run_cases2 (T : Target) (now : Nat) :
   split
   · exact .inr (.inl ⟨rfl, rfl, [], List.nil_sublist _, by simp [Target.exitWith]⟩)
   split
-  · rename_i h; exact .inl ⟨rfl, .inr (isSome_ne_none h)⟩
+  · rename_i h; exact .inl ⟨rfl, .inr (.inr h)⟩
+  split
+  · rename_i h; exact .inl ⟨rfl, .inr (.inl (isSome_ne_none h))⟩
   split
   · right; left; unfold Target.endLoop
     split <;> exact ⟨rfl, rfl, [], List.nil_sublist _, by simp [Target.exitWith]⟩
@@ -190,6 +192,8 @@ theorem EInv.step {s : State} (h : EInv s) (hi : Inv s) (_hd : DInv s) (op : Op)
   | mark => exact ⟨h.acc, h.before⟩
   | dropHandle i => exact ⟨h.acc, h.before⟩
   | hold => exact h.same _ rfl (fun _ => Iff.rfl)
+  | startHold => exact h.same _ rfl (fun _ => Iff.rfl)
+  | started => exact h.same _ rfl (fun _ => Iff.rfl)
   | fail =>
     have e : Timers.step s .fail = { s with target := s.target.poisonMsg } := rfl
     rw [e]
@@ -323,16 +327,18 @@ theorem all3_steps {s : State} (hi : Inv s) (hd : DInv s) (he : EInv s) (ops : L
 /-! ### quiescent points: nothing accepted is waiting -/
 
 theorem run_mbox_nil (T : Target) (now : Nat) (h1 : T.exit ≠ none → T.closedAt ≠ none)
-    (h2 : T.stopping ≠ none → T.closedAt ≠ none) (hn : (T.run now).closedAt = none) : (T.run now).mbox = [] := by
+    (h2 : T.stopping ≠ none → T.closedAt ≠ none) (hn : (T.run now).closedAt = none)
+    (hn2 : (T.run now).starting = false) : (T.run now).mbox = [] := by
   rcases run_cases2 T now with ⟨e, hx⟩ | ⟨hc, hm, _⟩ | ⟨_, hm, _⟩
-  · rw [e] at hn
-    rcases hx with hx | hx
+  · rw [e] at hn hn2
+    rcases hx with hx | hx | hx
     · exact absurd hn (h1 hx)
     · exact absurd hn (h2 hx)
+    · rw [hx] at hn2; cases hn2
   · rw [hc] at hn; cases hn
   · exact hm
 
-def QM (T : Target) : Prop := T.closedAt = none → T.mbox = []
+def QM (T : Target) : Prop := T.closedAt = none → T.starting = false → T.mbox = []
 
 theorem exit_closed {s : State} (hi : Inv s) : s.target.exit ≠ none → s.target.closedAt ≠ none := by
   intro hne
@@ -346,7 +352,8 @@ theorem exit_closed {s : State} (hi : Inv s) : s.target.exit ≠ none → s.targ
 theorem expand_tail_mbox (s : State) (m : MOp) :
     (∃ l, expand s m = l ++ [.target, .mark]) ∨
       (∃ op, expand s m = [op, .mark] ∧ (Timers.step s op).target.mbox = s.target.mbox ∧
-        (Timers.step s op).target.closedAt = s.target.closedAt) := by
+        (Timers.step s op).target.closedAt = s.target.closedAt ∧
+        ((Timers.step s op).target.starting = s.target.starting ∨ (Timers.step s op).target.starting = true)) := by
   cases m with
   | create k p => exact .inl ⟨[.create k p, .fire s.timers.length], rfl⟩
   | createX k p => exact .inl ⟨[.createX k p, .fire s.timers.length], rfl⟩
@@ -362,17 +369,19 @@ theorem expand_tail_mbox (s : State) (m : MOp) :
   | psrelease => exact .inl ⟨[.psrelease], rfl⟩
   | fail => exact .inl ⟨[.fail], rfl⟩
   | advFail d => exact .inl ⟨[.tick d, .fail, .target] ++ fireAll s.timers.length, by simp [expand]⟩
-  | hold => exact .inr ⟨.hold, rfl, rfl, rfl⟩
-  | dropHandle i => exact .inr ⟨.dropHandle i, rfl, rfl, rfl⟩
+  | hold => exact .inr ⟨.hold, rfl, rfl, rfl, .inl rfl⟩
+  | startHold => exact .inr ⟨.startHold, rfl, rfl, rfl, .inr rfl⟩
+  | started => exact .inl ⟨[.started], rfl⟩
+  | dropHandle i => exact .inr ⟨.dropHandle i, rfl, rfl, rfl, .inl rfl⟩
   | abort i =>
     refine .inr ⟨.abort i, rfl, ?_⟩
     cases hτ : s.timers[i]? with
-    | none => rw [step_abort_none hτ]; exact ⟨rfl, rfl⟩
-    | some τ => rw [step_abort_some hτ]; split <;> exact ⟨rfl, rfl⟩
+    | none => rw [step_abort_none hτ]; exact ⟨rfl, rfl, .inl rfl⟩
+    | some τ => rw [step_abort_some hτ]; split <;> exact ⟨rfl, rfl, .inl rfl⟩
 
 theorem qm_mstep {s : State} (hi : Inv s) (ha : AInv s) (hq : QM s.target) (m : MOp) : QM (mstep s m).target := by
   unfold Timers.mstep
-  rcases expand_tail_mbox s m with ⟨l, e⟩ | ⟨op, e, e3, e4⟩
+  rcases expand_tail_mbox s m with ⟨l, e⟩ | ⟨op, e, e3, e4, e5⟩
   · rw [e, steps_append]
     have hi1 := hi.steps l
     have ha1 := ha.steps l
@@ -381,9 +390,12 @@ theorem qm_mstep {s : State} (hi : Inv s) (ha : AInv s) (hq : QM s.target) (m : 
     exact run_mbox_nil _ _ (exit_closed hi1) ha1.sc
   · rw [e]
     show QM (Timers.step s op).target
-    intro hn
+    intro hn hn2
     rw [e4] at hn
-    rw [e3]; exact hq hn
+    rw [e3]
+    rcases e5 with e5 | e5
+    · rw [e5] at hn2; exact hq hn hn2
+    · rw [e5] at hn2; cases hn2
 
 theorem qm_mrun (ms : List MOp) : ∀ {s : State}, Inv s → AInv s → QM s.target → QM (mrun s ms).target := by
   induction ms with
@@ -399,6 +411,9 @@ theorem allHandledOk_of {s : State} (he : EInv s) (hq : QM s.target) : allHandle
   cases hcl : s.target.closedAt with
   | some tc => rfl
   | none =>
+    cases hst : s.target.starting with
+    | true => rfl
+    | false =>
     simp only [Option.isSome_none, Bool.false_or]
     rw [List.all_eq_true]
     intro x hx
@@ -413,7 +428,7 @@ theorem allHandledOk_of {s : State} (he : EInv s) (hq : QM s.target) : allHandle
         have hj' : j < τ.sentAt.length := List.mem_range.mp hj
         have := he.acc hcl i τ hτ hs hty (j + 1) (by omega) (by omega)
         unfold Target.ids at this
-        rw [hq hcl, List.nil_append] at this
+        rw [hq hcl hst, List.nil_append] at this
         exact List.contains_iff_mem.mpr this
       · have : τ.typed = false := by simpa using hty
         simp [this]
